@@ -7,6 +7,8 @@ import ObiVerif.Lemmas.TaxStr
 import ObiVerif.Lemmas.TaxLoad
 import ObiVerif.Model.TaxSeq
 import ObiVerif.Lemmas.TaxSeq
+import ObiVerif.Lemmas.TaxRender
+import ObiVerif.Lemmas.TaxWLca
 /-!
 # C14 — taxonomy queries agree with the tree (property theorems)
 
@@ -413,6 +415,56 @@ theorem weightedLca_unknown (kws : List (Nat × Nat)) (h : ∃ kw ∈ kws, resol
 theorem weightedLca_empty : weightedLca t fuel [] = .ok none := by
   cases fuel <;> simp [weightedLca, taxDist, wlcaNodes, mkItems, wloop, mkLevels, argMax, firstAnswer]
 
+/-! ### 6b. zero counts, merged taxids and several keys for one taxon in `merged_taxid` (second pass)
+
+FULL STATEMENT WANTED: for every `merged_taxid` map of known taxids, `Taxonomy.LCA(sequence, 1.0)` is the deepest
+common ancestor of the taxa having a positive count, whatever the iteration order of the Go map.  The code does not
+satisfy it: `TaxonomicDistribution` does `taxons[t] = v` (not `+=`), so when two keys of the map designate the same
+taxon (a merged taxid and its current taxid) the key met LAST decides the count (`taxonomicDistribution_last_wins`),
+and if one count is zero and the other is not the answer depends on the map order
+(`weightedLca_order_counterexample`).  Proved: the statement under `hcons` — the keys of one taxon agree on
+"count > 0" (always true when no count is zero, or when no taxon has two keys) — which is exactly the decidable
+hypothesis excluding that case. -/
+
+/-- zero counts are ignored (all counts zero: the root), merged taxids and duplicate keys are harmless under
+`hcons`, the values of the positive counts are irrelevant -/
+theorem weightedLca_counts_partial (wf : WF t root depth) (hf : FuelOK t fuel) (ha : AliasOK t)
+    (kws : List (Nat × Nat)) (hr : ∀ kw ∈ kws, (resolve t kw.1).isSome)
+    (hcons : ∀ kw ∈ kws, ∀ kw' ∈ kws, resolve t kw.1 = resolve t kw'.1 → (0 < kw.2 ↔ 0 < kw'.2)) :
+    (kws ≠ [] → (∀ kw ∈ kws, kw.2 = 0) → weightedLca t fuel kws = .ok (some root)) ∧
+    ((∃ kw ∈ kws, 0 < kw.2) → ∃ z, weightedLca t fuel kws = .ok (some z) ∧
+      ∀ a, Anc t a z ↔ ∀ kw ∈ kws, 0 < kw.2 → ∃ y, resolve t kw.1 = some y ∧ Anc t a y) :=
+  weightedLca_zero_dup wf hf ha kws hr hcons
+
+/-- … and then the answer does not depend on the order in which Go's map iteration yields the keys -/
+theorem weightedLca_order_free_partial (wf : WF t root depth) (hf : FuelOK t fuel) (ha : AliasOK t)
+    (kws kws' : List (Nat × Nat)) (hp : kws.Perm kws') (hr : ∀ kw ∈ kws, (resolve t kw.1).isSome)
+    (hcons : ∀ kw ∈ kws, ∀ kw' ∈ kws, resolve t kw.1 = resolve t kw'.1 → (0 < kw.2 ↔ 0 < kw'.2)) :
+    weightedLca t fuel kws' = weightedLca t fuel kws :=
+  weightedLca_perm_any wf hf ha kws kws' hp hr hcons
+
+/-- `TaxonomicDistribution`: one entry per taxon designated by a key, holding the count of the LAST key (in
+iteration order) that designates it -/
+theorem taxonomicDistribution_last_wins (kws : List (Nat × Nat)) (hr : ∀ kw ∈ kws, (resolve t kw.1).isSome) :
+    ∃ dist, taxDist t kws [] = .ok dist ∧ (dist.map (·.1)).Nodup ∧
+      (∀ y, y ∈ dist.map (·.1) ↔ ∃ kw ∈ kws, resolve t kw.1 = some y) ∧
+      (∀ x w, (x, w) ∈ dist → ∃ l1 kw l2, kws = l1 ++ kw :: l2 ∧ resolve t kw.1 = some x ∧ kw.2 = w ∧
+        ∀ kw' ∈ l2, resolve t kw'.1 ≠ some x) := by
+  obtain ⟨dist, h1, h2, h3, _⟩ := taxDist_spec kws hr
+  exact ⟨dist, h1, h2, h3, taxDist_last kws dist h1⟩
+
+/-- the counterexample to the full statement (9 is a merged taxid of 3): the two orders of the same map give the
+LCA of {3, 5} = 1 (what the tree implies) and 5 -/
+theorem weightedLca_order_counterexample :
+    weightedLca exT 6 [(3, 0), (9, 2), (5, 1)] = .ok (some 1) ∧
+    weightedLca exT 6 [(9, 2), (3, 0), (5, 1)] = .ok (some 5) ∧
+    [(3, 0), (9, 2), (5, 1)].Perm [(9, 2), (3, 0), (5, 1)] := ⟨rfl, rfl, List.Perm.swap _ _ _⟩
+
+example : ∃ z, weightedLca exT 6 [(3, 1), (9, 5), (4, 2), (10, 3), (5, 0)] = .ok (some z) ∧
+    ∀ a, Anc exT a z ↔ ∀ kw ∈ [(3, 1), (9, 5), (4, 2), (10, 3), (5, 0)], 0 < kw.2 →
+      ∃ y, resolve exT kw.1 = some y ∧ Anc exT a y :=
+  (weightedLca_counts_partial exT_wf exT_fuel exT_aliasOK _ (by decide) (by decide)).2 ⟨(3, 1), by decide⟩
+
 /-! ## 7. the hypotheses are satisfiable: a concrete taxonomy (non-vacuity; the `example`s that compute
 are tests of the model on this one taxonomy, not proofs of the property)
 
@@ -638,6 +690,68 @@ theorem loadNodes_panic (good : List (List Bytes)) (decl : List (Nat × Nat × B
     (hu : ∀ f ∈ bad.take 2, num f ≠ .error .unmodelled) :
     loadNodeRecs (good ++ bad :: rest) [] = .error .panic :=
   loadNodeRecs_panic good decl [] bad rest hg hb hu
+
+/-! ### 10b. the byte level: a dump rendered in the NCBI layout loads as the declared tree (second pass)
+
+`renderNodes` / `renderNames` / `renderMerged` (`Model/TaxRender.lean`) write the declarations with the fields
+separated by `"\t|\t"` and the lines ended by `"\t|\n"`, as the NCBI files are.  `parse (render decl) = decl`
+for all declarations whose fields hold no `|`, no line feed and no double quote (`NoSep`), taxids below `2^63`,
+ranks / names / name classes without blank at either end (`strings.TrimSpace` would remove it), the same number of
+columns on every line of `nodes.dmp`, lines of `names.dmp` that fit the 4096 byte buffer of `bufio.Reader`. -/
+
+open ObiVerif.TaxLoad in
+/-- the csv reader reaches the end of a rendered `nodes.dmp` / `merged.dmp` (no silent stop) and its records are
+the declarations: the hypotheses of `loadDump_declared` hold for rendered files -/
+theorem rendered_csv_records (rows : List NodeRow) (mrows : List (Nat × Nat)) (k : Nat)
+    (hk : ∀ r ∈ rows, r.extra.length = k) (hid : ∀ r ∈ rows, r.id < 2 ^ 63 ∧ r.parent < 2 ^ 63)
+    (hrank : ∀ r ∈ rows, NoSep r.rank ∧ trimSpace r.rank = r.rank) (hextra : ∀ r ∈ rows, ∀ f ∈ r.extra, NoSep f)
+    (hm : ∀ r ∈ mrows, r.1 < 2 ^ 63 ∧ r.2 < 2 ^ 63) :
+    ((csvRead (renderNodes rows)).stop = .eof ∧ AllRec NodeRec (csvRead (renderNodes rows)).recs (rows.map NodeRow.decl)) ∧
+    ((csvRead (renderMerged mrows)).stop = .eof ∧ AllRec MergedRec (csvRead (renderMerged mrows)).recs mrows) :=
+  ⟨csvRead_renderNodes rows k hk hid hrank hextra, csvRead_renderMerged mrows hm⟩
+
+open ObiVerif.TaxLoad in
+/-- `loadDump (render decl) = decl` : the `AddNewTaxa` calls are the declared nodes, the scientific names those of
+the `scientific name` lines of known taxids, the `AddNewAlias` calls the declared merged ids, in file order -/
+theorem loadDump_rendered (rows : List NodeRow) (nrows : List NameRow) (mrows : List (Nat × Nat)) (k : Nat)
+    (hk : ∀ r ∈ rows, r.extra.length = k) (hid : ∀ r ∈ rows, r.id < 2 ^ 63 ∧ r.parent < 2 ^ 63)
+    (hrank : ∀ r ∈ rows, NoSep r.rank ∧ trimSpace r.rank = r.rank) (hextra : ∀ r ∈ rows, ∀ f ∈ r.extra, NoSep f)
+    (hnid : ∀ r ∈ nrows, r.id < 2 ^ 63)
+    (hnf : ∀ r ∈ nrows, NoSep r.name ∧ trimSpace r.name = r.name ∧ NoSep r.uniq ∧ NoSep r.cls ∧ trimSpace r.cls = r.cls)
+    (hnlen : ∀ r ∈ nrows, (ncbiLine [showNat r.id, r.name, r.uniq, r.cls]).length ≤ 4096)
+    (hm : ∀ r ∈ mrows, r.1 < 2 ^ 63 ∧ r.2 < 2 ^ 63) :
+    loadDump (renderNodes rows) (renderNames nrows) (renderMerged mrows) =
+      .ok ⟨(rows.map NodeRow.decl).reverse,
+        ((nrows.filter fun r => decide (r.cls = sciClass) &&
+            (lookupNode (rows.map NodeRow.decl).reverse r.id).isSome).map fun r => (r.id, r.name)).reverse,
+        mrows⟩ :=
+  loadDump_render rows nrows mrows k hk hid hrank hextra hnid hnf hnlen hm
+
+open ObiVerif.TaxLoad in
+/-- … hence the taxonomy loaded from a rendered dump with distinct taxids is the declared tree: every declared
+node with its parent and rank, no other node, the merged ids resolved as `AddNewAlias` in file order -/
+theorem rendered_dump_is_declared_tree (rows : List NodeRow) (nrows : List NameRow) (mrows : List (Nat × Nat)) (k : Nat)
+    (hk : ∀ r ∈ rows, r.extra.length = k) (hid : ∀ r ∈ rows, r.id < 2 ^ 63 ∧ r.parent < 2 ^ 63)
+    (hrank : ∀ r ∈ rows, NoSep r.rank ∧ trimSpace r.rank = r.rank) (hextra : ∀ r ∈ rows, ∀ f ∈ r.extra, NoSep f)
+    (hnid : ∀ r ∈ nrows, r.id < 2 ^ 63)
+    (hnf : ∀ r ∈ nrows, NoSep r.name ∧ trimSpace r.name = r.name ∧ NoSep r.uniq ∧ NoSep r.cls ∧ trimSpace r.cls = r.cls)
+    (hnlen : ∀ r ∈ nrows, (ncbiLine [showNat r.id, r.name, r.uniq, r.cls]).length ≤ 4096)
+    (hm : ∀ r ∈ mrows, r.1 < 2 ^ 63 ∧ r.2 < 2 ^ 63) (hnd : (rows.map (·.id)).Nodup) :
+    ∃ L, loadDump (renderNodes rows) (renderNames nrows) (renderMerged mrows) = .ok L ∧
+      (∀ r ∈ rows, L.taxo.node r.id = some ⟨r.parent, toStr r.rank⟩) ∧
+      (∀ id, (∀ r ∈ rows, r.id ≠ id) → L.taxo.node id = none) ∧
+      L.taxo = addAliases L.base mrows ∧ AliasOK L.taxo := by
+  refine ⟨_, loadDump_rendered rows nrows mrows k hk hid hrank hextra hnid hnf hnlen hm, ?_, ?_, rfl, Loaded.taxo_aliasOK _⟩
+  · intro r hr
+    have hnd' : ((rows.map NodeRow.decl).map (·.1)).Nodup := by
+      simpa [List.map_map, NodeRow.decl, Function.comp_def] using hnd
+    exact (loaded_nodes_declared _ (rows.map NodeRow.decl) rfl).2.1 hnd' r.id r.parent r.rank
+      (List.mem_map.2 ⟨r, hr, rfl⟩)
+  · intro id hno
+    apply (loaded_nodes_declared _ (rows.map NodeRow.decl) rfl).2.2.1 id
+    intro d hd
+    obtain ⟨r, hr, rfl⟩ := List.mem_map.1 hd
+    exact hno r hr
 
 /-! ## 11. the sequence predicates, methods and workers resolve merged taxids exactly like the node level functions
 
@@ -871,6 +985,14 @@ example : loadDump exNodesF exNamesF exMergedF =
       have : (csvRead exMergedF).recs = [[[57], [51], []], [[49, 48], [57], []]] := by decide
       rw [this]
       exact .cons ⟨_, _, _, rfl, by decide, by decide⟩ (.cons ⟨_, _, _, rfl, by decide, by decide⟩ .nil))
+
+-- a rendered dump: 1|1|no rank, 2|1|genus, 3|2|species (two more columns), a merged id, three names.dmp lines
+example : ∃ L, loadDump (renderNodes exRows) (renderNames exNames) (renderMerged exMerged) = .ok L ∧
+    (∀ r ∈ exRows, L.taxo.node r.id = some ⟨r.parent, toStr r.rank⟩) ∧
+    (∀ id, (∀ r ∈ exRows, r.id ≠ id) → L.taxo.node id = none) ∧
+    L.taxo = addAliases L.base exMerged ∧ AliasOK L.taxo :=
+  rendered_dump_is_declared_tree exRows exNames exMerged 2 (by decide) (by decide) (by decide) (by decide) (by decide)
+    (by decide) (by decide) (by decide) (by decide)
 
 -- damaged files: a bare quote or a change of the number of fields ends the loading silently, a bad number panics
 example : (csvRead [49, 124, 49, 124, 10, 50, 124, 34, 124, 10]).stop = .quoted ∧
